@@ -70,7 +70,9 @@ func retryKind(name string) bool {
 	return false
 }
 
-func generate(key echx.KeyPair, b base, thorough bool) []fault { return generateMode(key, b, thorough, false) }
+func generate(key echx.KeyPair, b base, thorough bool) []fault {
+	return generateMode(key, b, thorough, false)
+}
 
 func generateMode(key echx.KeyPair, b base, thorough, retry bool) (out []fault) {
 	s := spec(key, b)
